@@ -90,6 +90,8 @@ def check_doc(signame, ast, res):
             continue
         want = modes[n.pos]
         got = node_mode(n)
+        if want[0] and want[1] is None:
+            got = (got[0], None)        # math without an opening delimiter: only the flag is claimed
         if got != want:
             res.fail('c10:mode:%s:%s' % (k, 'in-math-expected' if want[0] else 'text-expected')
                      + ('' if got[0] == want[0] else ':flag'),
